@@ -22,6 +22,7 @@ def family():
     from mc.flo import families as F
     yield from F.fam_clocks(F.DYADIC_TICKS + F.DECIMAL_TICKS)
     yield from F.fam_clocks_condaux()
+    yield from F.fam_clocks_aux_interrupt()
     if core.TIER != "quick":
         yield from F.fam_clocks_deep()
 
